@@ -75,7 +75,8 @@ class ARegridding(Adapter, ABC):
         # data arrives in the layout of the delivered grid; a given input grid was
         # checked to be compatible with it, but may be laid out differently
         self.input_grid = in_info.grid or self.input_grid
-        self.input_mask = self.input_mask or in_info.mask
+        if self.input_mask is None:
+            self.input_mask = in_info.mask
         self.output_grid = self.output_grid or info.grid
 
         if self.input_grid.crs is None and self.output_grid.crs is not None:
